@@ -5,22 +5,40 @@
     - [created g size now]: the state after Server.Create on an empty directory;
     - [run_ops g s os]: the history [os] from [s]; operations: create / open / close / process death
       between operations / set-mode / write / snapshot / remove / mark-removed / revert / resize /
-      set-checkpoint / set-rebuilding, and [OCrashIn k o]: process death inside [o] after k calls;
-      arguments are arbitrary (unknown names, head, latest, base, wrong mode, duplicate names);
+      set-checkpoint / set-rebuilding / replace-disk, and [OCrashIn k o]: process death inside [o]
+      after k calls; arguments are arbitrary (unknown names, head, latest, base, wrong mode, duplicate
+      names);
     - [recover g w]: what a restarted process reads from directory [w] (None: cannot be opened);
     - [linked f l]: every member of [l] has its image and its metadata file in [f], the metadata holds
       the member's record, and Parent is the next member (the last has none).
 
     FULL STATEMENT (C12_wf): for every g with 2 <= maxlen, every size <> 0 and EVERY history os,
-    the conclusion of [C12_wf_partial] holds.  That is false for the code as it is
-    ([C12_wf_refuted_revert], [C12_wf_refuted_children]); it is proved
-    - for the code as it is, for every history whose arguments avoid exactly the two shapes of the
-      findings ([ok_hist]: a revert whose target exists but is not a non-head chain member; a snapshot
-      name that was removed earlier in the same session) — [C12_wf_partial];
-    - for the code with the three argument repairs (cfg flags fix_dup, fix_rev, fix_children), for every
-      history — [C12_wf_repaired]. *)
+    the conclusion of [C12_wf_partial] holds.  It was false for the code before /repo 67e4d78 and
+    a2c8764 ([cfg_asis]; [C12_wf_refuted_revert], [C12_wf_refuted_children], kept as records of the
+    findings F10 and F12).  It is proved
+    - for every g, for every history that satisfies [ok_hist]: the arguments avoid the shapes of those
+      findings (which no longer exist once the cfg flags fix_dup, fix_rev, fix_children are set, as they
+      are in [code_cfg]) and every ReplaceDisk in it is one the code refuses (wrong mode, the head as
+      target, a source that is no file) — [C12_wf_partial];
+    - for the code with the three argument repairs (the code as it is), for every history without
+      ReplaceDisk ([norepl]) — [C12_wf_repaired].
+    MISSING: a ReplaceDisk that is carried out (source = the target's child, the coalesce path) is
+    modelled ([replace_disk]) and compared with the code by the correspondence runs of the check,
+    but not covered by the invariant theorem.
+
+    The oracle of the check ([Corr.c12_oracle_b]): its structural clause [wf_obs] — Chain() is a
+    duplicate-free path, every member is listed with its record, its only child and its parent, has
+    its image and a metadata file holding that record, the members are pairwise different inodes,
+    volume.meta names the head — is PROVED true on every observation of every model trace
+    ([C12_oracle_wf_model], Meta/Oracle.v).  Its two relational clauses (a refused operation leaves
+    chain, records, data tokens and Info() as they were; close / process death then open gives the
+    same) are proved at the level of recovered views ([C12_refused_unchanged],
+    [C12_reopen_roundtrip]); in the oracle's own boolean form they additionally compare the
+    per-image data-write count, whose invariance is not proved in general — there the oracle is
+    evaluated on the model's own trace of every executed history ([model_oracle]) and on two
+    representative histories by [vm_compute] (Proofs.c12_oracle_model_ex1/2). *)
 From Coq Require Import List ZArith NArith Bool Arith.
-From Jiva Require Import Meta.Model Meta.Corr Meta.Proofs.
+From Jiva Require Import Meta.Model Meta.Corr Meta.Proofs Meta.Oracle.
 Import ListNotations.
 
 (** the conclusion: a single acyclic path from the head to the base in which every member has its
@@ -104,3 +122,23 @@ Theorem C12_reachable_invariant : forall g size now os,
   cfg_ok g -> size <> 0%N -> ok_hist g (created g size now) os -> InvS g (run_ops g (created g size now) os).
 Proof. exact C12_wf_thm. Qed.
 Print Assumptions C12_reachable_invariant.
+
+(** the structural clause of the check's oracle on every observation of every model trace: for every
+    history from the creation of the volume (as the check runs it: [OCreate size now :: os] from the
+    empty directory) and every duplicate-free universe [u] of disk names that names the members of
+    every chain of the run ([covered]) *)
+Theorem C12_oracle_wf_model : forall g u size now os,
+  cfg_ok g -> size <> 0%N -> NoDup u ->
+  ok_hist g (created g size now) os -> covered g u (created g size now) os ->
+  (forall v, recover g (s_fs (created g size now)) = Some v -> forall d, In d (names_of_chain (cv_chain v)) -> In d u) ->
+  Forall (fun o => wf_obs o = true) (trace_ops g u init (OCreate size now :: os)).
+Proof. exact wf_obs_history. Qed.
+Print Assumptions C12_oracle_wf_model.
+
+(** ... and of every state of the invariant *)
+Theorem C12_oracle_wf_state : forall g u s r n,
+  InvS g s -> NoDup u ->
+  (forall v, recover g (s_fs s) = Some v -> forall d, In d (names_of_chain (cv_chain v)) -> In d u) ->
+  wf_obs (observe g u s r n) = true.
+Proof. exact wf_obs_observe. Qed.
+Print Assumptions C12_oracle_wf_state.
